@@ -641,9 +641,11 @@ CO_ERR COSdoInitDownloadBlock(CO_SDO *srv)
             result = COObjWrBufStart(srv->Obj, srv->Node, srv->Buf.Cur, 0);
         }
         if (result != CO_ERR_NONE) {
+            /* the refusal is answered like any other abort and leaves no block transfer open */
             srv->Node->Error = CO_ERR_SDO_WRITE;
+            srv->Blk.State   = BLK_IDLE;
             COSdoAbort(srv, CO_SDO_ERR_TOS);
-            return (result);
+            return (CO_ERR_SDO_ABORT);
         }
         result = CO_ERR_NONE;
     }
